@@ -295,7 +295,7 @@ fn coders_part(report: &Report, depth: usize) {
 // ------------------------------------------------------------------------------------------
 // (C) fault enumeration on the ANS coder's sink
 
-fn faults_part(report: &Report, depth: usize) {
+pub fn faults_part(report: &Report, depth: usize) {
     let cat: Cat8 = Cat8::from_nonzero_fixed_point_probabilities([100u8, 1, 55, 100], false).unwrap();
     let hs = histories(4, depth);
     let mut n = 0u64;
